@@ -250,6 +250,57 @@ func senderBinding(c *harness.C, scheme string, n, thr int, caps []capMsg) {
 	}
 }
 
+// reInitBinding: the same adapter object serves two sessions with different committees (Init, traffic
+// from every sender, Init again with another committee, traffic again): in the second session
+// every message must be attributed relative to the second committee.
+func reInitBinding(c *harness.C, scheme string, n, thr int, caps []capMsg) {
+	first := []uint16{1, 2, 3, 4}[:min(n, 4)]
+	second := []uint16{2, 3, 5, 8}[:min(n, 4)]
+	if n < 3 {
+		first, second = []uint16{1, 2}, []uint16{2, 5}
+	}
+	senders := []uint16{0, 1, 2, 3, 4, 5, 6, 7, 8, 9}
+	pos := map[uint16]int{}
+	for i, m := range second {
+		pos[m] = i
+	}
+	seenType := map[string]bool{}
+	for _, m := range caps {
+		url := typeURL(m.Data)
+		if seenType[url] {
+			continue
+		}
+		seenType[url] = true
+		recv := newAdapter(scheme, 2)
+		recv.Init(first, thr, func([]byte, bool, uint16) {})
+		for _, b := range senders {
+			recv.OnMsg(m.Data, b, m.Bcast)
+		}
+		if _, ok := inboundOf(recv); !ok {
+			return
+		}
+		recv.Init(second, thr, func([]byte, bool, uint16) {})
+		for _, b := range senders {
+			inboundOf(recv)
+			recv.OnMsg(m.Data, b, m.Bcast)
+			c.Add("evaluations", 1)
+			queued, _ := inboundOf(recv)
+			for _, q := range queued {
+				p, member := pos[b]
+				rp := replay{scheme, n, thr, "sender-binding-reinit"}
+				switch {
+				case q.key != b:
+					c.Violation("sender-binding", "c19-reinit-message-attributed-to-other-sender:"+scheme, fmt.Sprintf("%s: second session on one adapter object (committee %v after %v): a message delivered by %d reached the library attributed to key %d", scheme, second, first, b, q.key), rp)
+				case member && q.index != p:
+					c.Violation("sender-binding", "c19-reinit-message-attributed-to-other-index:"+scheme, fmt.Sprintf("%s: second session on one adapter object (committee %v after %v): a message delivered by member %d (position %d) reached the library with index %d", scheme, second, first, b, p, q.index), rp)
+				case !member && q.index >= 0 && q.index < len(second):
+					c.Violation("sender-binding", "c19-reinit-non-member-attributed-to-member:"+scheme, fmt.Sprintf("%s: second session on one adapter object (committee %v after %v): a message delivered by non-member %d reached the library with index %d, i.e. attributed to member %d", scheme, second, first, b, q.index, second[q.index]), rp)
+				}
+			}
+		}
+	}
+}
+
 func eddsaCase(n, thr int) harness.Case {
 	return harness.Case{ID: fmt.Sprintf("eddsa/n%dt%d", n, thr), Run: func(c *harness.C) {
 		what := fmt.Sprintf("eddsa n=%d t=%d", n, thr)
@@ -321,6 +372,7 @@ func eddsaCase(n, thr int) harness.Case {
 		}
 		classify(c, "eddsa", n, thr, caps)
 		senderBinding(c, "eddsa", n, thr, caps)
+		reInitBinding(c, "eddsa", n, thr, caps)
 		c.Sample("eddsa", map[string]interface{}{"n": n, "t": thr, "captured_messages": len(caps)})
 	}}
 }
@@ -502,6 +554,7 @@ func ecdsaCase(n, thr int) harness.Case {
 		}
 		classify(c, "ecdsa", n, thr, caps)
 		senderBinding(c, "ecdsa", n, thr, caps)
+		reInitBinding(c, "ecdsa", n, thr, caps)
 		// the adapter's Sign on the library's key material, over the digest alphabet
 		shares := map[uint16][]byte{}
 		for id, sv := range r.saves {
@@ -560,6 +613,9 @@ func sha512sum384(b []byte) []byte { h := sha512.Sum384(b); return h[:] }
 func gen(c *harness.C) []harness.Case {
 	c.Note("rule", "every message passed to sendMsg / emitted by the library during complete key-generation and signing runs for several (n,t): ClassifyMsg on a fresh adapter must agree with the routing flag, broadcast-class types of one phase get pairwise distinct rounds, each message re-fed as coming from every other party is attributed to that party or dropped, Sign over the digest alphabet (incl. leading zero bytes) returns a signature that verifies for exactly the requested digest, and with mismatching digests nobody returns a signature for a digest it was not asked to sign; EdDSA through the adapters end to end, ECDSA with the library run on fixture pre-parameters (P-256) and the adapter's classifier/Sign on its output; distinct_nontrivial = distinct (scheme, phase, message type) and signing cells")
 	var cases []harness.Case
+	if os.Getenv("VERIF_FAMILY") == "race" {
+		return concurrentCases(c)
+	}
 	for _, nt := range [][2]int{{2, 1}, {3, 1}, {3, 2}, {4, 2}} {
 		cases = append(cases, eddsaCase(nt[0], nt[1]))
 	}
